@@ -52,6 +52,16 @@ CHECKS = {
    text="Sign side: every sequence of 16 RFC 3161 behaviours (valid, granted-with-mods, wrong/absent nonce, wrong imprint value/algorithm, rejection/waiting status, rejection carrying a valid token, corrupted signature, signed by another key, no certificate, HTTP 500, garbage, empty, dropped connection) or 9 legacy-protocol behaviours over 1-2 URLs (thorough 3), as a choice tree ending at the first acceptable answer, for PowerShell (Authenticode OID), JAR (RFC 3161 OID), ClickOnce manifest (RFC 3161 and legacy) and VSIX: the artifact must carry exactly the first acceptable authority's token (identified by its attested time), else signing must fail without artifact after asking every URL in order. Verify side: 3 leaf validity windows x {no token, valid token under either OID, token grafted from another signature} x 4 authorities (trusted, no timestamping EKU, untrusted, short-lived) x 7 attested times vs the reference formula.",
    note="Trusted: verif/tsa (from-scratch authority, tokens validated with `openssl ts -verify`), loopback HTTP, relic verify's report of the attested time (used to identify which authority's token was attached). Hanging authorities and the memcached timestamp cache are not in the alphabet.",
    ref="4/C10"),
+ "C07": dict(level="model_checking", engine="E4 explicit enumeration of key configurations x signature types on the real pipeline",
+   technique="exhaustive enumeration of the product (82 key/certificate/PGP/token-lookup configurations x 23 signature types, plus worker-RPC rotation scenarios and direct builder calls) through the real signing pipeline, judged by relic-independent extraction and cryptographic verification of the embedded leaf and signature value",
+   text="Every (configuration, type) pair runs through relicx.SignStandalone (thorough: also other digests and the server path): mismatched certificate files (other key, other curve point incl. the negated point, other algorithm), chains in every order, PKCS#7/PKCS#12 bundles incl. key A with leaf B, token-supplied certificates, PGP certificates/keyrings, token lookups that return another key, and key rotation between lookup and sign through the real worker client + RPC handler + key cache in virtual time. A run must end in an error or in an artifact whose embedded leaf is the configured one, whose first certificate is the leaf and whose signature value verifies under the leaf key - extracted by harness-owned readers (CMS via gen/dergen, APK v2 block, xar TOC, cosign annotations, RPM/deb/OpenPGP packets, XML-DSig elements), never by relic's verifier. 140 direct calls of the PKCS#7 and XML-DSig builders with inconsistent certificate lists.",
+   note="Trusted: gen/dergen, Go crypto, the extractors in cmd/c07. XML SignedInfo canonical bytes come from relic's SerializeCanonical (canonicalisation is C19's subject). Real PKCS#11 tokens are not available; the worker path uses the scripted token behind the real client/handler/cache.",
+   ref="4/C07"),
+ "C17": dict(level="model_checking", engine="E4 bounded-exhaustive ZIP family + E3 two rounds of relic's writer operations",
+   technique="bounded-exhaustive enumeration of a ZIP archive family and of the archives relic's writer operations produce from it (two rounds), judged against the consensus of Go archive/zip and Python zipfile",
+   text="9311 generated archives quick / 132k thorough (all 5120 single-member shapes over method x size x descriptor variant x ZIP64 extra x extra field x name x comment; 2-3 (thorough 4) member products over a covering alphabet x archive-level features: EOCD comment, ZIP64 end records, directory order, gaps) and everything 7 relic writer operations make from the in-scope ones, fed back once more (100k states quick, 650k thorough). For every archive both reference readers accept: zipslicer.Read and the single-pass ZipToTar/ReadZipTar path must report the same members, offsets, sizes, CRCs and contents; GetTotalSize must tile the file; WriteDirectory/GetOriginalDirectory must reproduce the original directory and end records; archives relic writes must be accepted by both references and re-read identically.",
+   note="Trusted: gen/zipgen (layout map cross-checked each run), Go archive/zip, Python zipfile (their agreement defines 'valid'). 19 deviation classes are listed in KNOWN_FINDINGS.txt (explicit refusals of valid shapes; four silent-corruption classes in the writer); two announced defects were repaired. Not covered: sizes at the 4 GiB thresholds, stub/prefix data, multi-disk fields.",
+   ref="4/C17"),
 }
 NOT_YET = {}
 ALL = ["C%02d" % i for i in range(1, 21)]
